@@ -81,6 +81,13 @@ def check(ctx):
     i_set = [i for i, s_ in enumerate(ns.node.body) if any(isinstance(c_, ast.Call) and norm(c_.func) == "old_setattr" and [norm(a_) for a_ in c_.args] == ["self", "attr", "value"] for c_ in ast.walk(s_))]
     ok = len(i_add) == 1 and len(i_set) == 1 and i_set[0] < i_add[0]
     ctx.check(ok, "C15.R2", ns.qualname, ns.node.body[0], "__setattr__ wrapper must delegate to the original __setattr__ and then add the attribute to the tracked set: recorded first, a refused assignment (frozen dataclass) still marks the field as set and exclude_unset emits it", ns, ns.node, detail="old_setattr(self, attr, value); then add(attr)")
+    # typing assigns __orig_class__ on instances created through a parametrised alias (G[int](...)): special attributes are no fields
+    from ..pathcond import parents_of as _po2, path_condition as _pc2
+    adds2 = [c_ for c_ in ast.walk(ns.node) if isinstance(c_, ast.Call) and isinstance(c_.func, ast.Attribute) and c_.func.attr == "add" and [norm(a_) for a_ in c_.args] == ["attr"]]
+    cond2 = norm(_pc2(ns.node, adds2[0], _po2(ns.node))) if adds2 else ""
+    ctx.check(bool(adds2) and "attr.startswith('__')" in cond2 and "attr.endswith('__')" in cond2 and cond2.startswith("not"), "C15.R2", ns.qualname + ":special-attributes", None,
+              "every assigned attribute is recorded, special ones included: fields_set(G[int](1)) for a generic class contains '__orig_class__' (set by typing on the new instance), which is no field of the class",
+              ns, adds2[0] if adds2 else ns.node, detail="dunder attributes are not recorded")
     ctx.check("FIELDS_SET_ATTR" in norm(ns.node) and "dataclass_before_error" in norm(ns.node), "C15.R2", ns.qualname + ":live-set", ns.node.body[0], "__setattr__ wrapper no longer updates the instance's own tracked set", ns, ns.node, detail="self.__dict__[FIELDS_SET_ATTR]")
     ctx.check("post_init_fields.add(field.name)" in t and "DEFAULT_AS_SET_METADATA" in t and "not field.init" in t and "_FIELD_INITVAR" in t, "C15.R2", f"{w.qualname}:field-classes", w.node.body[0],
               "with_fields_set no longer classifies init=False / default_as_set fields (always set) and InitVars (never set)", w, w.node, detail="post_init_fields / init_fields")
@@ -163,6 +170,7 @@ def check(ctx):
     ctx.check("isinstance(field_type, InitVar)" in norm(dtf.node), "C15.R6", f"{dtf.qualname}:classifier", None, "dataclass_types_and_fields no longer classifies init variables by their resolved hint (rule to be re-derived)", dtf, dtf.node, detail="isinstance(field_type, InitVar)", nontrivial=False)
 
 def mutants(mb):
+    mb.add_text("special-attributes-recorded", "apischema/fields.py", "        if not (attr.startswith(\"__\") and attr.endswith(\"__\")):\n            fields_set.add(attr)\n", "        fields_set.add(attr)\n", "C15.R2", "special-attributes")
     mb.add_text("generic-initvar-unwrapped", "apischema/typing.py", "                if isinstance(hint, TypeVar):\n                    hints[name] = substitution.get(hint, hint)\n", "                if isinstance(getattr(hint, \"type\", None), TypeVar) and type(hint).__name__ == \"InitVar\":\n                    hints[name] = substitution.get(hint.type, hint.type)\n                elif isinstance(hint, TypeVar):\n                    hints[name] = substitution.get(hint, hint)\n", "C15.R6", "InitVar-kept")
     mb.add_text("flag-placeholder-none", "apischema/metadata/implem.py", "    return MetadataImplem({key: ...})\n", "    return MetadataImplem({key: None})\n", "C15.R5", "DEFAULT_AS_SET_METADATA")
     mb.add_text("neg-flag-placeholder-true", "apischema/metadata/implem.py", "    return MetadataImplem({key: ...})\n", "    return MetadataImplem({key: True})\n", negative=True)
@@ -175,8 +183,8 @@ def mutants(mb):
     mb.add_text("exclude-unset-untracked", S, "exclude_unset = self.exclude_unset and support_fields_set(cls)", "exclude_unset = self.exclude_unset", "C15.R1", "exclude_unset")
     mb.add_text("selection-without-unset", S, "                typed_dict\n                or exclude_unset\n                or field_alias is None", "                typed_dict\n                or field_alias is None", "C15.R1", "selection")
     mb.add_text("emit-when-unset", SM, "else (not self.exclude_unset or self.name in getattr(obj, FIELDS_SET_ATTR))", "else (self.exclude_unset or self.name in getattr(obj, FIELDS_SET_ATTR))", "C15.R1", "update_result")
-    mb.add_text("setattr-not-tracked", Fp, "        fields_set.add(attr)  # only if the assignment succeeded (e.g. frozen class)\n", "", "C15.R2", "new_setattr")
-    mb.add_text("setattr-tracked-before-assignment", Fp, "        old_setattr(self, attr, value)  # type: ignore\n        fields_set.add(attr)  # only if the assignment succeeded (e.g. frozen class)\n", "        fields_set.add(attr)\n        old_setattr(self, attr, value)  # type: ignore\n", "C15.R2", "new_setattr")
+    mb.add_text("setattr-not-tracked", Fp, "        if not (attr.startswith(\"__\") and attr.endswith(\"__\")):\n            fields_set.add(attr)\n", "", "C15.R2", "new_setattr")
+    mb.add_text("setattr-tracked-before-assignment", Fp, "        old_setattr(self, attr, value)  # type: ignore\n", "        if not (attr.startswith(\"__\") and attr.endswith(\"__\")):\n            fields_set.add(attr)\n        old_setattr(self, attr, value)  # type: ignore\n", "C15.R2", "new_setattr")
     mb.add_text("init-drops-prev", Fp, "self.__dict__[FIELDS_SET_ATTR] = prev_fields_set | arg_fields | post_init_fields", "self.__dict__[FIELDS_SET_ATTR] = arg_fields | post_init_fields", "C15.R2", "new_init")
     mb.add_text("init-counts-initvars", Fp, "arg_fields = {*params[: len(args)], *kwargs} - init_fields", "arg_fields = {*params[: len(args)], *kwargs}", "C15.R2", "new_init")
     mb.add_text("unset-clears", Fp, "    _fields_set(obj).difference_update(map(get_field_name, fields))", "    _fields_set(obj).intersection_update(map(get_field_name, fields))", "C15.R3", "unset_fields")
